@@ -98,6 +98,7 @@ def get(prog, path):
 
 
 RAISE_KINDS = ["expr", "expr", "expr", "py", "arg"]
+UNDEF_NAME = "missing_name_zq"
 
 
 def raise_node(kind):
@@ -105,6 +106,10 @@ def raise_node(kind):
         return {"t": "py", "code": ["raise Boom('py')"], "oneline": True}
     if kind == "arg":
         return {"t": "expr", "e": "str(boom(Boom))"}
+    if kind == "undef":
+        # under strict_undefined the NameError is raised on entry of the callable that reads the name, before its body
+        # runs; planted only as the FIRST node of a def / block body, where "on entry" and "at this node" coincide
+        return {"t": "expr", "e": UNDEF_NAME}
     return {"t": "expr", "e": "boom(Boom)"}
 
 
@@ -119,7 +124,7 @@ def plant(prog, rpath, ridx, kind, hpath=None, hidx=None):
         hpath = list(hpath)
         hl = get(p, hpath)
         node = hl[hidx]
-        hl[hidx] = {"t": "try", "body": [node], "handlers": [["Boom", [{"t": "text", "s": H_MARK}]]], "ind": "", "sp": " "}
+        hl[hidx] = {"t": "try", "body": [node], "handlers": [["(Boom, NameError)", [{"t": "text", "s": H_MARK}]]], "ind": "", "sp": " "}
         # right after the handler: a def that works with and without content is called plainly - `caller` must be restored
         probes = [n for n in p["body"] if n.get("t") == "expr" and n.get("__probe")]
         inside_def = False
@@ -158,7 +163,7 @@ def ref_run(prog, mode="render"):
         return ("exc", type(e).__name__, "".join(it.bufs[0]))
 
 
-def mako_run(src, mode, uri):
+def mako_run(src, mode, uri, strict=False):
     """-> outcome tuple, mode specific"""
     from mako import exceptions as mexc
     from mako.runtime import Context
@@ -177,15 +182,27 @@ def mako_run(src, mode, uri):
         kw["error_handler"] = eh
     if mode == "format_exceptions":
         kw["format_exceptions"] = True
+    if strict:
+        kw["strict_undefined"] = True
+    if mode == "handler_declines_baseexc":
+        pre = SystemExit(3) if len(src) % 2 else KeyboardInterrupt("stop", 2)
+        ctx["boom"] = lambda cls=None, msg="boom": (_ for _ in ()).throw(pre)
+
+        def eh2(context, error):
+            handled.append(error)
+            return False
+        kw["error_handler"] = eh2
     try:
         t = Template(src, uri=uri, imports=tenv.IMPORTS, **kw)
     except Exception as e:
         return ("compile-exc", type(e).__name__, str(e)[:200])
-    if mode in ("render", "error_handler", "format_exceptions"):
+    if mode in ("render", "error_handler", "format_exceptions", "handler_declines_baseexc"):
         try:
             out = t.render_unicode(**ctx)
             return ("ok", out, handled, pre)
-        except Exception as e:
+        except BaseException as e:
+            if isinstance(e, trun._Timeout):
+                raise
             return ("exc", e, pre)
     if mode == "second":
         r = []
@@ -226,7 +243,7 @@ def check_case(case, ev=None, want_caught=False):
     uri = "/c13_%d.html" % next(_uri)
     try:
         with trun.cpu_guard():
-            got = mako_run(src, mode, uri)
+            got = mako_run(src, mode, uri, strict=(case["kind"] == "undef"))
     except trun._Timeout:
         raise Failure(case, "mako did not finish within %.0f s CPU (reference terminates)\n--- source ---\n%s" % (trun.MAKO_CPU_LIMIT_S, src),
                       "mako-does-not-terminate")
@@ -242,9 +259,9 @@ def check_case(case, ev=None, want_caught=False):
         else:
             if got[0] == "ok":
                 raise Failure(case, "reference raises %s but mako rendered %r%s" % (ref[1], got[1], tag), "unhandled:swallowed")
-            if type(got[1]).__name__ != ref[1]:
+            if type(got[1]).__name__ != ref[1] and not (ref[1] == "NameError" and isinstance(got[1], NameError)):
                 raise Failure(case, "reference raises %s, mako raises %r%s" % (ref[1], got[1], tag), "unhandled:other-exception:" + type(got[1]).__name__)
-            if ref[1] == "Boom" and case["kind"] != "py" and got[1] is not got[2]:
+            if ref[1] == "Boom" and case["kind"] not in ("py", "undef") and got[1] is not got[2]:
                 raise Failure(case, "the exception that propagated is not the original object: %r%s" % (got[1], tag), "unhandled:not-same-object")
     elif mode == "error_handler":
         if got[0] != "ok":
@@ -252,8 +269,15 @@ def check_case(case, ev=None, want_caught=False):
         exp = ref[1] if ref[0] == "ok" else ref[2]
         if got[1] != exp:
             raise Failure(case, "with error_handler->True mako returned %r, expected the direct output so far %r%s" % (got[1], exp, tag), "error_handler:output-differs")
-        if ref[0] == "exc" and (len(got[2]) != 1 or (ref[1] == "Boom" and case["kind"] != "py" and got[2][0] is not got[3])):
+        if ref[0] == "exc" and (len(got[2]) != 1 or (ref[1] == "Boom" and case["kind"] not in ("py", "undef") and got[2][0] is not got[3])):
             raise Failure(case, "error_handler calls: %r%s" % (got[2], tag), "error_handler:calls")
+    elif mode == "handler_declines_baseexc":
+        # the reference raises Boom at that point; mako is given a pre-built SystemExit / KeyboardInterrupt instead, which no
+        # `% except (Boom, NameError)` catches: it must propagate as the very same object when the error_handler declines
+        if got[0] != "exc":
+            raise Failure(case, "a SystemExit/KeyboardInterrupt raised in the template was swallowed: %r%s" % (got[:2], tag), "baseexc:swallowed")
+        if got[1] is not got[2]:
+            raise Failure(case, "error_handler returned False but %r propagated instead of the original %r%s" % (got[1], got[2], tag), "baseexc:not-same-object")
     elif mode == "format_exceptions":
         if got[0] != "ok":
             raise Failure(case, "format_exceptions set but render raised %r%s" % (got[1], tag), "format_exceptions:raised")
@@ -311,9 +335,13 @@ def subject_cases(prog):
         wraps = [wraps[int(i * st_)] for i in range(WR)]
     for ri, (rpath, ridx, ranc) in enumerate(raise_points):
         kind = RAISE_KINDS[ri % len(RAISE_KINDS)]
+        if ridx == 0 and len(rpath) >= 2 and rpath[-1] == "body" and ri % 2 == 0:
+            holder = get(prog, rpath[:-1])
+            if isinstance(holder, dict) and holder.get("t") == "def":  # (names read in an anonymous block are fetched on entry of the ENCLOSING callable)
+                kind = "undef"
         base = plant(prog, rpath, ridx, kind)
         r0 = ref_run(base)
-        if r0[0] != "exc" or r0[1] != "Boom":
+        if r0[0] != "exc" or r0[1] not in ("Boom", "NameError"):
             continue  # raise point not executed (dead branch / uncalled def)
         unhandled.append((rpath, ridx, kind, ranc))
         catching = []
@@ -358,7 +386,7 @@ def run_subject(prog, ev, fails, quick):
         nt = h.pop("nt")
         cases.append((dict(h, mode=hmodes[i % len(hmodes)]), nt))
     for (rpath, ridx, kind, ranc) in unhandled:
-        for mode in ("render", "context", "error_handler", "format_exceptions", "second"):
+        for mode in ("render", "context", "error_handler", "format_exceptions", "second") + (("handler_declines_baseexc",) if kind in ("expr", "arg") else ()):
             cases.append(({"prog": prog, "rpath": rpath, "ridx": ridx, "kind": kind, "hpath": None, "hidx": None, "mode": mode},
                           sum(1 for a in ranc if a in NEST) >= 2))
     for case, nt in cases:
